@@ -16,7 +16,7 @@ func (i *interpreter) timeNow(fn *ssa.Function) value {
 	if i.clock != nil {
 		ext = i.clock(i)
 	} else {
-		ext = int64(1_000_000_000) + int64(i.clockReads)
+		ext = int64(1_000_000_000) + i.clockBase + int64(i.clockReads)
 	}
 	return structure{uint64(0), ext, (*value)(nil)}
 }
